@@ -33,12 +33,14 @@ func (p ArrayPattern) Bind(ctx context.Context, local Scope, value Value) (conte
 	}
 
 	extraElements := make(map[int]int)
+	hasRest := false
 	for i, item := range p.items {
 		if _, is := item.pattern.(ExtraElementPattern); is {
 			if len(extraElements) == 1 {
 				return ctx, EmptyScope, fmt.Errorf("non-deterministic pattern is not supported yet")
 			}
 			extraElements[i] = array.Count() - len(p.items)
+			hasRest = true
 		}
 		if item.fallback != nil {
 			if len(extraElements) == 1 {
@@ -52,7 +54,8 @@ func (p ArrayPattern) Bind(ctx context.Context, local Scope, value Value) (conte
 		return ctx, EmptyScope, fmt.Errorf("length of array %s shorter than array pattern %s", array, p)
 	}
 
-	if len(extraElements) == 0 && len(p.items) < array.Count() {
+	// Only ... absorbs additional items; an optional item does not.
+	if !hasRest && len(p.items) < array.Count() {
 		return ctx, EmptyScope, fmt.Errorf("length of array %s longer than array pattern %s", array, p)
 	}
 
